@@ -154,6 +154,18 @@ def check(pid, tier, seed=0, jobs=None, only=None, keep_work=False):
             t['cmd'].append(str(t['per_path']))
           t['wall'] = t['timeout'] * 2.5 + 90
 
+  # thorough tier: keep the whole property within a wall-clock budget by scaling the per-harness
+  # timeouts down when the requested total exceeds it (shards that then do not finish are INCONCLUSIVE)
+  if tier == 'thorough':
+    budget = float(os.environ.get('VERIF_THOROUGH_BUDGET_S', '1800')) * jobs
+    mains = [t for t in tasks if t['kind'] == 'X' and t['role'] in ('main', 'known')]
+    requested = sum(t['timeout'] for t in mains)
+    if requested > budget:
+      scale = budget / requested
+      for t in mains:
+        t['timeout'] = max(90.0, t['timeout'] * scale)
+        t['cmd'][5] = str(t['timeout'])
+        t['wall'] = t['timeout'] * 2.5 + 90
   # longest first
   tasks.sort(key=lambda t: -t.get('wall', 0))
   results = {}
